@@ -381,6 +381,39 @@ func (le *logicEnv) eval(fn *Func, e ast.Expr, subst map[types.Object]ast.Expr) 
 				return acc
 			}
 		}
+		// a local function literal with a single return statement, bound once: inline it
+		if id, ok := ast.Unparen(x.Fun).(*ast.Ident); ok && le.depth < 4 {
+			if obj, isVar := info.ObjectOf(id).(*types.Var); isVar && !obj.IsField() {
+				defs := AssignsTo(info, fn.Decl, obj)
+				if len(defs) == 1 {
+					if as, ok := defs[0].(*ast.AssignStmt); ok && len(as.Rhs) == 1 && len(as.Lhs) == 1 {
+						if fl, ok := ast.Unparen(as.Rhs[0]).(*ast.FuncLit); ok && len(fl.Body.List) == 1 {
+							if rs, ok := fl.Body.List[0].(*ast.ReturnStmt); ok && len(rs.Results) == 1 {
+								sub := map[types.Object]ast.Expr{}
+								for k, v := range subst {
+									sub[k] = v
+								}
+								i := 0
+								for _, fl2 := range fl.Type.Params.List {
+									for _, nm := range fl2.Names {
+										if i < len(x.Args) {
+											sub[info.Defs[nm]] = &substExpr{fn: fn, e: x.Args[i], subst: subst}
+										}
+										i++
+									}
+								}
+								if i == len(x.Args) {
+									le.depth++
+									v := le.eval(fn, rs.Results[0], sub)
+									le.depth--
+									return v
+								}
+							}
+						}
+					}
+				}
+			}
+		}
 		// one-line pure method or function of the repository: inline it
 		if callee := Callee(info, x); callee != nil && le.depth < 4 {
 			if cf := le.prog.FuncOf(callee); cf != nil {
